@@ -246,7 +246,27 @@ def c18(tier, replay):
                        "concurrent: phases of 2..16 real threads x 1..3 operations on 1..2 keys followed by a quiescent read-back, plus a systematic enumeration (ordered pair of operations on one key x pause point 1..6 of the first one, forced through a gated Hash impl of the state / key type), TLC searches a linearisation; "
                        "non-trivial = histories with >= 2 reads (sequential) or with really overlapping calls (concurrent), counted")
     chk.assumptions = ["the OS produces the interleavings (DashMap is not hooked)", "invocation/response stamps come from one SeqCst atomic counter"]
+    tlaps_part(chk)
     return chk.finish()
+
+
+def tlaps_part(chk):
+    """the algebra of the threshold cache, machine-checked by TLAPS on the very definitions TLC uses (spec/proofs/ThresholdLemmas.tla):
+    total order, ThMax is its join, an update never lowers an entry, updates commute, must_explore is antitone"""
+    import subprocess, shutil, re as _re
+    d = os.path.join(SPEC, "proofs")
+    shutil.rmtree(os.path.join(d, ".tlacache"), ignore_errors=True)
+    try:
+        p = subprocess.run(["tlapm", "--threads", "4", "-I", "..", "ThresholdLemmas.tla"], cwd=d, capture_output=True, text=True, timeout=1200)
+    except subprocess.TimeoutExpired:
+        raise ToolError("tlapm timed out")
+    shutil.rmtree(os.path.join(d, ".tlacache"), ignore_errors=True)
+    m = _re.search(r"All (\d+) obligations? proved", p.stdout + p.stderr)
+    if not m:
+        log((p.stdout + p.stderr)[-2000:])
+        raise ToolError("TLAPS did not prove spec/proofs/ThresholdLemmas.tla (specification-level failure)")
+    chk.cov["tlaps"] = {"module": "spec/proofs/ThresholdLemmas.tla", "obligations_proved": int(m.group(1)),
+                        "lemmas": ["Total", "Transitive", "MaxCommutes", "MaxAssociative", "MaxIdempotent", "UpdateNeverLowers", "UpdatesCommute", "MustAntitone", "UpdateWritesMax", "UpdateTouchesOneKey"]}
 
 
 def c17_component(chk, w, tier):
